@@ -460,19 +460,26 @@ def check(ctx):
             for c in p.calls():
                 if callee_is(c, "usize::checked_sub") and len(c[3]) == 2 and is_size(c[3][0]) and c[3][1] == ("param", 2):
                     cs = c
-        ctx.check(cs is not None, "R04.3", "discard/n<=size-dominates-removal", "target = size.checked_sub(n)", f.at(),
+        # canonical paths spell size.checked_sub(n) out: `size < n` -> None, else Some(size - n)
+        unfolded = cs is None and any(x[0] == "binop" and x[1] == "Sub" and is_size(x[2]) and x[3] == ("param", 2) for p in paths for c in p.conds for x in subexprs(c[0]))
+        ctx.check(cs is not None or unfolded, "R04.3", "discard/n<=size-dominates-removal", "target = size.checked_sub(n)", f.at(),
                   bad_detail="discard neither compares n with the size nor computes size.checked_sub(n) before removing")
-        if cs is None:
+        if cs is None and not unfolded:
             return
-        target = ("field", cs, 0, "Some")
+        target = ("field", cs, 0, "Some") if cs is not None else None
+        is_target = lambda e: (e == target) if target is not None else (e[0] == "binop" and e[1] == "Sub" and is_size(e[2]) and e[3] == ("param", 2))
         n_loop = 0
         for p in paths:
             pops = [c for c in p.calls() if callee_is(c, "Stack::pop", "Vec::pop")]
-            some = K.discr_is(p, lambda o: o == cs, 1)
-            none = K.discr_is(p, lambda o: o == cs, 0)
             rl = K.rels(p, norm=lambda e: e)
-            more = any(op == "Gt" and is_size(a) and K.strip(b, calls=()) == target for a, op, b in rl) or any(op == "Lt" and is_size(b) and K.strip(a, calls=()) == target for a, op, b in rl)
-            done = any(op == "Le" and is_size(a) and K.strip(b, calls=()) == target for a, op, b in rl) or any(op == "Ge" and is_size(b) and K.strip(a, calls=()) == target for a, op, b in rl)
+            if cs is not None:
+                some = K.discr_is(p, lambda o: o == cs, 1)
+                none = K.discr_is(p, lambda o: o == cs, 0)
+            else:
+                some = any((op == "Ge" and is_size(a) and b == ("param", 2)) or (op == "Le" and is_size(b) and a == ("param", 2)) for a, op, b in rl)
+                none = any((op == "Lt" and is_size(a) and b == ("param", 2)) or (op == "Gt" and is_size(b) and a == ("param", 2)) for a, op, b in rl)
+            more = any(op == "Gt" and is_size(a) and is_target(K.strip(b, calls=())) for a, op, b in rl) or any(op == "Lt" and is_size(b) and is_target(K.strip(a, calls=())) for a, op, b in rl)
+            done = any(op == "Le" and is_size(a) and is_target(K.strip(b, calls=())) for a, op, b in rl) or any(op == "Ge" and is_size(b) and is_target(K.strip(a, calls=())) for a, op, b in rl)
             kind, pay = K.outcome(p)
             if pops:
                 ctx.check(some and more and len(pops) == 1, "R04.3", "discard/n<=size-dominates-removal", cond_str(p)[:160], f.at(),
